@@ -6,6 +6,6 @@ git -C /repo diff --quiet || { echo "/repo dirty"; exit 2; }
 git -C /repo apply "$P" || { echo "apply failed"; exit 2; }
 trap 'git -C /repo checkout -- . ; git -C /repo clean -fdq' EXIT
 for c in "$@"; do
-  VERIF_DIR=/var/tmp/vd /verif/check.sh $c $T 2>&1 | grep -E "^(violation|VIOLATION|HARNESS|C[0-9]+ (quick|thorough)|KNOWN)" | cut -c1-400
+  VERIF_OUT=/var/tmp/vd /verif/check.sh $c $T 2>&1 | grep -E "^(violation|VIOLATION|HARNESS|C[0-9]+ (quick|thorough)|KNOWN)" | cut -c1-400
   echo "  -> $c exit=${PIPESTATUS[0]}"
 done
